@@ -440,12 +440,12 @@ Hypothesis inflate_deflate : forall p, inflate (deflate p) = Some p.
 Variable limit : N.
 
 Lemma read_group_chunk_b : forall meta s d0 ds,
-  doc_ok d0 = true -> small (enc_doc d0) -> doc_bin_ok d0 = true ->
+  doc_ok d0 = true -> small (enc_doc d0) ->
   (N.of_nat (length (flatten_doc d0)) < 2 ^ 32)%N -> (N.of_nat (length ds) < 2 ^ 32)%N ->
   (N.of_nat (length ds) <= limit)%N -> (N.of_nat (length (flatten_doc d0)) * N.of_nat (length ds) <= limit)%N ->
   read_chunk_b inflate limit None meta (group_chunk deflate s d0 ds) = inl (group_ck meta s d0 ds).
 Proof.
-  intros meta s d0 ds Hok Hsmall Hbin Hm Hd Hl1 Hl2.
+  intros meta s d0 ds Hok Hsmall Hm Hd Hl1 Hl2.
   unfold read_chunk_b, group_chunk.
   rewrite lookup_data_chunk, lookup_id_chunk.
   unfold compress.
@@ -458,7 +458,7 @@ Proof.
   rewrite (skipn_app_exact _ (le_enc 4 (N.of_nat (length p) mod 2 ^ 32)) (deflate p) 4) by apply le_enc_length.
   rewrite inflate_deflate.
   unfold p, payload.
-  rewrite (read_one_framed (enc_doc d0) d0 _ (frame_ok_enc d0 Hok Hsmall Hbin)).
+  rewrite (read_one_framed (enc_doc d0) d0 _ (frame_ok_enc d0 Hok Hsmall)).
   rewrite !N.mod_small by (rewrite ?Hrl; assumption).
   rewrite (app_assoc (le_enc 4 (N.of_nat m))).
   rewrite (bs_take_exact_app 8 (le_enc 4 (N.of_nat m) ++ le_enc 4 (N.of_nat (length rows))))
@@ -483,7 +483,7 @@ Proof.
 Qed.
 
 Theorem bridge_chunk : forall meta s d0 ds,
-  doc_ok d0 = true -> small (enc_doc d0) -> doc_bin_ok d0 = true ->
+  doc_ok d0 = true -> small (enc_doc d0) ->
   (N.of_nat (length (flatten_doc d0)) < 2 ^ 32)%N -> (N.of_nat (length ds) < 2 ^ 32)%N ->
   (N.of_nat (length ds) <= limit)%N -> (N.of_nat (length (flatten_doc d0)) * N.of_nat (length ds) <= limit)%N ->
   read_chunk_b inflate limit None meta (group_chunk deflate s d0 ds) =
